@@ -1,12 +1,10 @@
-//go:build verif
+//go:build verif && verif_digest
 
 package bot
 
-// Exported wrappers for the verification harness (added at build time through -overlay;
+// Exported wrapper for the verification harness (added at build time through -overlay;
 // not part of the repository).
 
 func VerifAuthDigest(serverID string, sharedSecret, publicKey []byte) string {
 	return authDigest(serverID, sharedSecret, publicKey)
 }
-
-func VerifTwosComplement(p []byte) []byte { return twosComplement(p) }
